@@ -69,6 +69,9 @@ pub struct TimerSpec {
     pub kind: Kind,
     pub period: u64,
     pub via: Via,
+    /// extra microseconds on top of `period` ms (a period that is not a whole number of milliseconds). The timer wheel
+    /// has millisecond granularity, so such a timer is due at period + 1 ms: that is the period the specification sees
+    pub sub_us: u64,
 }
 
 #[derive(Clone, Debug, PartialEq)]
@@ -136,7 +139,7 @@ fn tname(i: usize) -> String {
 
 fn create(sc: &Scenario, w: &W, i: usize, target: &ActorRef<TMsg>) {
     let spec = &sc.timers[i];
-    let p = Duration::from_millis(spec.period);
+    let p = Duration::from_millis(spec.period) + Duration::from_micros(spec.sub_us);
     let cnt = Arc::new(AtomicU32::new(0));
     let h = match (spec.kind, spec.via) {
         (Kind::After, Via::Cell) => Handle::After(ractor::time::send_after(p, target.get_cell(), move || TMsg::Tick(i, 1))),
@@ -161,7 +164,7 @@ fn create(sc: &Scenario, w: &W, i: usize, target: &ActorRef<TMsg>) {
         Handle::AfterD(j) => j.abort_handle(),
         Handle::Unit(j) => j.abort_handle(),
     };
-    obs("obs.create", &tname(i), 0, vec![kvs("kind", spec.kind.s()), kvi("p", spec.period as i64)]);
+    obs("obs.create", &tname(i), 0, vec![kvs("kind", spec.kind.s()), kvi("p", spec.period as i64 + i64::from(spec.sub_us > 0)), kvi("rp", spec.period as i64)]);
     let mut g = w.lock().unwrap();
     g.handles[i] = Some(h);
     g.aborts[i] = Some(ah);
@@ -405,6 +408,11 @@ pub fn one_run(sc: &Scenario, ex: &mut Explorer) -> (Vec<Value>, Value, bool) {
             match task_timer.get(&id) {
                 Some(x) => {
                     o.insert("x".into(), json!(x));
+                    // the hook logs period.as_millis(): a period with a sub-millisecond part counts as the next whole ms
+                    let ti: usize = x[1..].parse::<usize>().unwrap_or(1) - 1;
+                    if sc.timers.get(ti).map(|t| t.sub_us > 0).unwrap_or(false) {
+                        o.insert("d".into(), json!(e.d + 1));
+                    }
                 }
                 None => continue,
             }
@@ -438,7 +446,10 @@ pub fn one_run(sc: &Scenario, ex: &mut Explorer) -> (Vec<Value>, Value, bool) {
 // scenarios
 // ------------------------------------------------------------------------------------------------
 fn t(kind: Kind, period: u64, via: Via) -> TimerSpec {
-    TimerSpec { kind, period, via }
+    TimerSpec { kind, period, via, sub_us: 0 }
+}
+fn tsub(kind: Kind, period: u64, via: Via, sub_us: u64) -> TimerSpec {
+    TimerSpec { kind, period, via, sub_us }
 }
 
 /// Hand-written micro-scenarios explored exhaustively over poll orders
@@ -536,6 +547,16 @@ pub fn micro_scenarios() -> Vec<Scenario> {
             post_stop_sleep: 12,
             instant: false,
             horizon: 40,
+        },
+        // periods that are not whole milliseconds: never early means not before the next whole millisecond
+        Scenario {
+            timers: vec![tsub(K::Exit, 2, Via::Cell, 999), tsub(K::After, 1, Via::Ref, 1), tsub(K::Kill, 4, Via::Derived, 500), tsub(K::After, 0, Via::Cell, 999)],
+            in_pre_start: vec![],
+            clients: vec![vec![Create(0), Create(1), Create(2), Create(3), Join(1), Join(3), Join(0), Join(2)], vec![Sleep(2), Finished(0), Sleep(1), Finished(0)]],
+            post_stop_yield: false,
+            post_stop_sleep: 4,
+            instant: false,
+            horizon: 12,
         },
         // timers the actor arms on itself in pre_start
         Scenario {
@@ -693,7 +714,8 @@ pub fn rand_scenario(rng: &mut Rng) -> Scenario {
             1 => Via::Ref,
             _ => Via::Derived,
         };
-        timers.push(TimerSpec { kind, period, via });
+        let sub_us = if kind != Kind::Interval && rng.chance(1, 6) { [1u64, 500, 999][rng.below(3)] } else { 0 };
+        timers.push(TimerSpec { kind, period, via, sub_us });
     }
     let mut in_pre_start = vec![];
     let mut clients: Vec<Vec<COp>> = vec![];
